@@ -26,11 +26,11 @@ Proof.
   rewrite <- Z.lxor_assoc, Z.lxor_nilpotent, Z.lxor_0_l in E. discriminate.
 Qed.
 
-Lemma GetVertices_range L code cp : 4 <= L <= 15 -> 0 <= cp <= 255 ->
+Lemma GetVertices_range L code cp : 4 <= L <= 15 -> 0 <= cp <= maxCodeParam ->
   0 <= fst (GetVertices L code cp) < 2 ^ L /\ 0 <= snd (GetVertices L code cp) < 2 ^ L /\
   fst (GetVertices L code cp) <> snd (GetVertices L code cp).
 Proof.
-  intros HL Hcp. unfold GetVertices. cbv zeta.
+  intros HL Hcp. unfold maxCodeParam in Hcp. unfold GetVertices. cbv zeta.
   match goal with |- context [Z.land ?s (wrapU 64 (wrapU 64 (Z.shiftl 1 L) - 1))] => generalize s end.
   intros s.
   assert (P : 16 <= 2 ^ L) by (change 16 with (2 ^ 4); apply Z.pow_le_mono_r; lia).
@@ -63,4 +63,43 @@ Proof.
     + apply lxor_lt_pow2; assumption.
     + rewrite E. intros H. symmetry in H. exact (lxor_1_neq v2 H).
   - rewrite (wrapU_small 64 0) by lia. rewrite Z.lxor_0_r. auto.
+Qed.
+
+(* ---------- only 16 of the code parameters are different ----------
+   For codeParam = 16 p + q (p, q < 16) the two vertices are those of parameter (p xor q), both relabelled by `xor p`.
+   (v |-> v xor p is a bijection of the vertex set, so the whole graph for (p, q) is isomorphic to the one for (0, p xor q):
+   a cycle for one is a cycle for the other.)  Recorded as an observation about momo's parameterisation, see NOTES.md. *)
+Lemma GetVertices_param_xor L code p q : 4 <= L <= 15 -> 0 <= p < 16 -> 0 <= q < 16 ->
+  GetVertices L code (16 * p + q) =
+  (Z.lxor (fst (GetVertices L code (Z.lxor p q))) p, Z.lxor (snd (GetVertices L code (Z.lxor p q))) p).
+Proof.
+  intros HL Hp Hq. unfold GetVertices. cbv zeta.
+  match goal with |- context [Z.land ?s (wrapU 64 (wrapU 64 (Z.shiftl 1 L) - 1))] => generalize s end.
+  intros s.
+  set (m := wrapU 64 (wrapU 64 (Z.shiftl 1 L) - 1)).
+  assert (Hd : 0 <= Z.lxor p q < 16).
+  { change 16 with (2 ^ 4). apply lxor_lt_pow2; simpl; lia. }
+  assert (E1 : Z.shiftr (16 * p + q) 4 = p).
+  { rewrite Z.shiftr_div_pow2 by lia. change (2 ^ 4) with 16. symmetry. apply (Z.div_unique _ 16 p q); lia. }
+  assert (E2 : Z.land (16 * p + q) 15 = q).
+  { change 15 with (Z.ones 4). rewrite Z.land_ones by lia. change (2 ^ 4) with 16. symmetry. apply (Z.mod_unique _ 16 p q); lia. }
+  assert (E3 : Z.shiftr (Z.lxor p q) 4 = 0).
+  { rewrite Z.shiftr_div_pow2 by lia. apply Z.div_small. simpl; lia. }
+  assert (E4 : Z.land (Z.lxor p q) 15 = Z.lxor p q).
+  { change 15 with (Z.ones 4). rewrite Z.land_ones by lia. apply Z.mod_small. simpl; lia. }
+  rewrite E1, E2, E3, E4. rewrite Z.lxor_0_r.
+  set (s1 := Z.land s m). set (s2 := Z.land (Z.shiftr s L) m).
+  cbn [fst snd].
+  assert (X : Z.lxor s2 q = Z.lxor (Z.lxor s2 (Z.lxor p q)) p).
+  { apply Z.bits_inj'. intros n Hn. rewrite !Z.lxor_spec.
+    destruct (Z.testbit s2 n), (Z.testbit p n), (Z.testbit q n); reflexivity. }
+  set (w := Z.lxor s2 (Z.lxor p q)) in *.
+  assert (C : Z.eqb (Z.lxor s1 p) (Z.lxor s2 q) = Z.eqb s1 w).
+  { rewrite X. destruct (Z.eqb_spec s1 w) as [->|N]; [apply Z.eqb_refl|].
+    apply Z.eqb_neq. intros H. apply N.
+    assert (H' : Z.lxor (Z.lxor s1 p) p = Z.lxor (Z.lxor w p) p) by (rewrite H; reflexivity).
+    rewrite !Z.lxor_assoc, Z.lxor_nilpotent, !Z.lxor_0_r in H'. exact H'. }
+  rewrite C. f_equal. rewrite X.
+  apply Z.bits_inj'. intros n Hn. rewrite !Z.lxor_spec.
+  destruct (Z.testbit w n), (Z.testbit p n), (Z.testbit (wrapU 64 (if Z.eqb s1 w then 1 else 0)) n); reflexivity.
 Qed.
